@@ -247,6 +247,8 @@ type Gen struct {
 	BigAmts  bool
 	queue    []Tx // transactions scheduled to run next (follow-ups of probes)
 	noSameBlock bool
+	CycleProbes bool // rollback probes: every kind in turn, alternately queued / same-block
+	probeN      int
 }
 
 func NewGen(e *Engine) *Gen { return &Gen{E: e, R: e.Rc.Rand, inNonce: 1000} }
@@ -759,7 +761,12 @@ func (g *Gen) RollbackProbe() Tx {
 		}
 		return &ct.MsgReceiveMessage{From: g.acct(), Message: raw, Attestation: ref.HonestAttestation(raw, signers, r.Intn(3))}
 	}
-	switch r.Intn(14) {
+	kind, sameBlock := r.Intn(14), r.Intn(2) == 1
+	if g.CycleProbes { // every kind in turn, alternately queued and same-block, instead of drawn at random
+		kind, sameBlock = g.probeN%14, (g.probeN/14)%2 == 0
+		g.probeN++
+	}
+	switch kind {
 	case 0:
 		first = &ct.MsgUpdatePauser{From: m.Owner, NewPauser: nw}
 		follow = []sdk.Msg{&ct.MsgPauseBurningAndMinting{From: nw}, &ct.MsgUnpauseBurningAndMinting{From: m.Pauser}}
@@ -770,7 +777,7 @@ func (g *Gen) RollbackProbe() Tx {
 		first = &ct.MsgUpdateTokenController{From: m.Owner, NewTokenController: nw}
 		follow = []sdk.Msg{&ct.MsgSetMaxBurnAmountPerMessage{From: nw, LocalToken: "uusdc", Amount: mkInt(big.NewInt(7))}}
 	case 3:
-		if m.HasPending && r.Intn(2) == 0 {
+		if m.HasPending && (g.CycleProbes || r.Intn(2) == 0) {
 			first = &ct.MsgAcceptOwner{From: m.Pending}
 			follow = []sdk.Msg{&ct.MsgUpdatePauser{From: m.Pending, NewPauser: m.Pending}, &ct.MsgUpdateMaxMessageBodySize{From: m.Owner, MessageSize: 8000}}
 		} else {
@@ -808,8 +815,8 @@ func (g *Gen) RollbackProbe() Tx {
 		}
 		follow = []sdk.Msg{&ct.MsgDepositForBurn{From: Acct(RichIx), Amount: mkInt(big.NewInt(3)), DestinationDomain: d, MintRecipient: g.rand32(), BurnToken: e.MintDenom()}}
 	case 10, 11: // relink a token pair to another denom / link a new one, then receive on it
-		d, tok := RemoteDomains[r.Intn(2)], Token(r.Intn(2))
-		if dd, tt, ok := e.pickLinked(r, true); ok {
+		d, tok := RemoteDomains[r.Intn(2)], Token(r.Intn(4))
+		if dd, tt, ok := e.pickLinked(r, true); ok && r.Intn(2) == 0 {
 			d, tok = dd, tt
 		}
 		if cur, has := m.Pairs[pairKey{d, string(tok)}]; has {
@@ -849,7 +856,7 @@ func (g *Gen) RollbackProbe() Tx {
 	}
 	failing := &ct.MsgRemoveRemoteTokenMessenger{From: Nobody(), DomainId: 0}
 	probe := append(append([]sdk.Msg{first, reader}, extra...), failing)
-	if g.noSameBlock || r.Intn(2) == 0 || len(follow) == 0 {
+	if g.noSameBlock || !sameBlock || len(follow) == 0 {
 		for _, f := range follow {
 			g.queue = append(g.queue, Tx{Msgs: msgs1(f), Note: "follow-up of a rollback probe"})
 		}
